@@ -107,6 +107,17 @@ class Gen:
             return self.leaf_spec(t)
         if c == 'dict':
             pairs = [[f'k{i}', self.spec(t, d)[0]] for i in range(rng.randint(1, 3))]
+            if rng.random() < 0.25:
+                # a COMPUTED key (a T / S expression): evaluated after its value, with a trace line of
+                # its own when it is what fails
+                i = rng.randrange(len(pairs))
+                if rng.random() < 0.5:
+                    key = rng.choice([['T', 'T', [['[', 'zz']]], ['T', 'S', [['.', 'unbound_name']]]])
+                else:
+                    key, kv = self.access(t)
+                    if key[0] != 'T' or isinstance(kv, (dict, list)) or kv is None:
+                        key = ['T', 'T', [['[', 'zz']]]
+                pairs[i][0] = {'t': 'spec', 'v': key}
             return ['dict', pairs], None
         if c == 'list':
             if isinstance(t, list) and t:
@@ -258,6 +269,12 @@ def eval_plan(G, item, plan, stats):
             V('final-error-line', f'differs/{type(o).__name__}', exp_last, last)
         elif me.marker and me.marker not in last and me.etype not in ('CoalesceError', 'MatchError'):
             V('final-error-line', f'marker-missing/{me.etype}', me.marker, last)
+        else:
+            # "... and ends with the type and message of the original error": all of it, also when
+            # the message has several lines (a blank one, one that only points at a column)
+            exp_full = ''.join(traceback.format_exception_only(type(o), o)).rstrip('\n')
+            if '\n' in exp_full and not canon.norm_text(msg.rstrip('\n')).endswith(canon.norm_text(exp_full)):
+                V('final-error-line', f'message-lines-lost/{type(o).__name__}', exp_full, msg.rstrip('\n')[-300:])
     return viols, digest, None
 
 
@@ -300,7 +317,7 @@ def run_seed(seed, tier):
         plans.append({f'0:{site}#{nth}': {'cls': rng.choice(['UGlomErr', 'UGlomErr', 'UGlomErrInit', 'UGlomMixed',
                                                              'UGlomMultiline'])}})
         plans.append({f'0:{site}#{nth}': {'cls': rng.choice(['ValueError', 'KeyError', 'UserErr', 'UGlomArity',
-                                                             'UGlomKwOnly', 'UserArity'])}})
+                                                             'UGlomKwOnly', 'UserArity', 'UserCaret'])}})
     for _ in range(6 if len(points) >= 2 else 0):
         chosen = rng.sample(points, min(len(points), rng.randint(2, 4)))
         plan = {}
